@@ -44,6 +44,10 @@ checks = {
    text="Every operation sequence up to depth 3 in which each mutating operation is tried both committed and rolled-back-after-success; at the commit boundary after the last operation the full observation vector (issued addresses with metadata, next indices, last addresses, names, properties, used flags, sync state, block hashes) of the live manager is compared with a manager freshly opened on a copy of the database, and before a committed issuing call a restarted copy is asked which address it would issue. Failing sequences are delta-debugged to name the culprit operation.",
    note="State = operation history; queries about addresses that were never issued by a committed operation are counted (Q3) but not required to agree. Four rollback leaks are listed as known findings.",
    technique="bounded exhaustive enumeration of operation sequences with commit/rollback outcomes on the implementation, differential oracle live manager vs freshly opened manager"),
+ "C18": dict(engine="vsched-chan", level=MC, ref="4/C18",
+   text="The current chain/queue.go is rewritten (AST pass, at check time) so that every channel operation, select and goroutine start goes through a cooperative scheduler; all interleavings of producer, consumer, stopper and the queue's worker and all choices among simultaneously ready select cases are explored by DFS with a visited set on the full canonical state, to fixpoint with unbounded preemptions, for buffer sizes 0..3 and bursts 1..5 (thorough 0..5 / 1..9); FIFO/no-loss/no-duplication are checked at every receive and terminal state, producer progress without consumer, and worker termination after Stop.",
+   note="Channel operations are the only scheduling points (code between them is thread-local in queue.go); memory-model effects are out of scope of a cooperative scheduler; constructs the rewriter does not understand make the check exit 2, never 0.",
+   technique="stateful model checking of the implementation under a controlled scheduler (all interleavings + all select choices, state hashing, fixpoint)"),
 }
 pending_reason = "check not built yet in this session (planned, see DESIGN.md section 4)"
 def sh(c): return subprocess.run(c, shell=True, capture_output=True, text=True).stdout.strip()
@@ -56,6 +60,7 @@ m = {
  "engines": [
   {"name": "maporder", "path": "ovgen + harness/vorder", "serves_properties": ["C14"], "kind_free_text": "go build -overlay generated from the current tree rewrites map ranges into harness-controlled order; DFS over all order choice vectors"},
   {"name": "seqx", "path": "harness/amgr", "serves_properties": ["C03","C04","C05","C08","C10"], "kind_free_text": "stateless bounded-depth enumeration of operation sequences on real waddrmgr managers (fresh copy of a template database per execution), 16 workers"},
+  {"name": "vsched-chan", "path": "harness/c18", "serves_properties": ["C18"], "kind_free_text": "controlled scheduler with a channel/select model; queue.go rewritten by an AST pass generated from the current tree; DFS with visited set over canonical global states"},
   {"name": "txgraph", "path": "harness/txgraph", "serves_properties": ["C01","C02","C12","C13","C14","C10"], "kind_free_text": "explicit-state BFS over the real wtxmgr.Store (state = canonical namespace dump) with a reference ledger in lock-step"},
  ],
  "checks": [], "not_applicable": [],
